@@ -15,6 +15,10 @@ func (fx *fnExec) tryMaterialize(v Val) (Val, bool) {
 		if len(mp.Path) == 0 {
 			return Val{T: v.T, C: []*Term{mp.Ref}}, true
 		}
+	case PElem:
+		if len(mp.Path) == 0 && isStruct(mp.Root) {
+			return Val{T: v.T, C: []*Term{fx.ex.elemHandle(mp)}}, true
+		}
 	}
 	return v, false
 }
